@@ -144,6 +144,16 @@ pub fn generate(thorough: bool, seed: u64, em: &mut Emitter) {
             "tag": if reserved { json!("reserved_name_in_claims") } else if marks.is_empty() { json!("nothing_disclosable") } else { Value::Null },
         }));
     }
+    // claims that are not a JSON object: whatever would be issued is not an SD-JWT (the payload of a JWT is an object)
+    for (i, root) in [json!(["a", "b"]), json!("s"), json!(null), json!(5), json!([{"a": 1}]), json!(true)].iter().enumerate() {
+        for (paths, decoy, cnf) in [(vec![], Value::Null, false), (vec!["/0"], Value::Null, false), (vec![], json!(3), false), (vec![], Value::Null, true)] {
+            em.case("conform", json!({
+                "claims": root, "paths": paths, "marks": [], "decoy": decoy, "cnf": cnf, "expect_claims": root, "subsets": [[]],
+                "nontrivial": true, "reserved_input": false, "own_cnf": false, "non_object_claims": true, "calls": 1 + i % 2, "first_fails": false,
+                "tag": "non_object_claims",
+            }));
+        }
+    }
     // large documents (not the 10000-element array: the independent verifier's model is quadratic in it)
     for v in 0..(if thorough { 48 } else { 12 }) {
         let mut rc = r.fork();
